@@ -122,8 +122,9 @@ def funnel(ctx, F, cfg):
 
 def run(ctx):
     spec = json.load(open(os.path.join(VERIF, "spec", "ctap2_messages.json")))
-    ctx.explanation = ("Decision table of the error conversion expanded over every cbor_smol::Error variant (foreign ADT table), funnel rule over every error exit of "
-                       "Request::deserialize (result sites and `?` sites with their path literals), and required-set agreement of every generated decoder with the specification tables.")
+    ctx.explanation = ("Decision table of the error conversion: its path summaries (rules/sym.py) selected for every (outer variant, cbor_smol::Error variant) pair of the foreign ADT table; funnel rule over "
+                       "every error path of Request::deserialize as described over the command byte (rules/dispatch.py: which CtapMappingError each exit carries, converted on the way out); the byte-level "
+                       "table of which bytes are rejected with InvalidCommand; required-set agreement of every generated decoder with the specification tables.")
     ctx.rule = "obligation = conversion row | error exit | required member, per configuration"
     ctx.trusted = ["cbor-smol 0.5.1: serde::de::Error::missing_field -> Error::SerdeMissingField; which Error a malformed input raises", "serde-indexed 0.1.1 / serde_derive 1.0.229 (missing_field exits read from typed HIR)"]
     for cfg, F in ctx.facts.items():
